@@ -685,13 +685,21 @@ func vtC06LedgerExec(in []int64) []int64 {
 }
 
 func vtC06LedgerGen(r *rand.Rand, i int) (string, []int64) {
-	cpus := vtC06GenTopo(r, 32)
+	style := r.Intn(3) // 0: with restored allocations (Update), 1: reservations with give-backs, 2: plain
+	maxCPUs := 32
+	if style == 1 {
+		maxCPUs = 16
+	}
+	cpus := vtC06GenTopo(r, maxCPUs)
 	maxRef := int64(1)
 	switch r.Intn(10) {
 	case 0, 1, 2:
 		maxRef = 2
 	case 3:
 		maxRef = 3
+	}
+	if style == 1 && r.Intn(2) == 0 {
+		maxRef = 1
 	}
 	most := int64(r.Intn(2))
 	var reserved []int
@@ -731,8 +739,8 @@ func vtC06LedgerGen(r *rand.Rand, i int) (string, []int64) {
 			in = append(in, int64(nd), capCPU, memUnit*int64(r.Intn(9)))
 		}
 	}
-	withUpdates := r.Intn(3) == 0
-	giveBacks := !withUpdates && r.Intn(2) == 0 // reservations (uids 0,1) with owner pods and preemption
+	withUpdates := style == 0
+	giveBacks := style == 1 // reservations (uids 0,1) with owner pods and preemption
 	nops := 1 + r.Intn(12)
 	in = append(in, int64(nops))
 	label := "clean"
@@ -786,6 +794,13 @@ func vtC06LedgerGen(r *rand.Rand, i int) (string, []int64) {
 			if giveBacks && uid >= 2 && r.Intn(4) != 0 {
 				opc = 4
 				bindReq = 1
+				if r.Intn(2) == 0 {
+					n = int64(2 + r.Intn(1+len(cpus)/2))
+				}
+			}
+			if giveBacks && uid < 2 {
+				bindReq = 1
+				n = int64(1 + r.Intn(1+len(cpus)/2))
 			}
 			in = append(in, opc, uid, n, bindReq, bind, required, int64(r.Intn(3)))
 			if r.Intn(5) < 2 {
